@@ -28,7 +28,7 @@
    forward ([ETick], monotone by construction).  [reachable c t0 s] = s is the
    state after some event list from the empty state at instant t0. *)
 From Coq Require Import List ZArith Bool Lia.
-From Verif Require Import C02.Model C02.Proofs C02.Proofs2 C02.Proofs3 C02.Proofs4 C02.Proofs5 C02.Proofs6 C02.Phased C02.Model2 C02.Proofs7.
+From Verif Require Import C02.Model C02.Proofs C02.Proofs2 C02.Proofs3 C02.Proofs4 C02.Proofs5 C02.Proofs6 C02.Phased C02.Model2 C02.Proofs7 C02.Proofs9.
 Import ListNotations.
 Open Scope Z_scope.
 
@@ -809,7 +809,11 @@ Qed.
 (* (F) the hypotheses as checks; suites and reachable states               *)
 
 (* [wf] on the configurations-as-data of the suites is the boolean [wfb]
-   (Model.v); run_res / run_eng evaluate it on every case. *)
+   (Model.v); the suites' functions evaluate it on every case (today
+   Model2.run_res2h and Model3.run_eng3h, through run_res2 / run_eng2; the older
+   Model.run_res / run_eng do the same but are evaluated by no suite any more:
+   run_res is the right-hand side of the bridge C02_suite_res2_is_res, run_eng
+   is unused). *)
 Theorem C02_wfb_spec : forall rows, wfb rows = true <-> wf (mkcfg rows).
 Proof. exact wfb_spec. Qed.
 Print Assumptions C02_wfb_spec.
@@ -832,7 +836,12 @@ Example C02_ex_checks :
   calls_phasedb (fun _ => false) np_evs = false /\ phasedb np_cfg 0 np_evs = false.
 Proof. vm_compute. repeat split; reflexivity. Qed.
 
-(* The suites reset the verdict register between operations ([clear_verdict]),
+(* "suite res" / "suite eng" in the three statements below are the OLD suite
+   functions of Model.v ([rsteps_state], [eevs_state]); what the harness
+   evaluates today is tied to them by C02_suite_res2_is_res (equality) and, for
+   the engine level, restated directly in C02_suite_eng2_states_reachable /
+   C02_bound_suite_eng2 (section G).
+   The suites reset the verdict register between operations ([clear_verdict]),
    which is not an event.  Every state they go through equals a reachable
    state of the machine in everything but that register ([sbv]); no lock
    region reads it, and no theorem above mentions it except as the output of
@@ -877,6 +886,22 @@ Theorem C02_gc_delete_while_recording_only_after_expiry : forall c t0 evs, wf c 
     e <= now s.
 Proof. exact gc_delete_while_recording. Qed.
 Print Assumptions C02_gc_delete_while_recording_only_after_expiry.
+
+(* the premise is reachable (audit 2): the first 8 events of [orphan_evs] (up to
+   the GC's item step) are a phased schedule that leaves request 1 about to
+   record its status (FSet pending) while the GC of quota 0 has the deletion
+   for request 1 in hand; the conclusion
+   then says what it must: the expiry of that status (1.01 s) has passed (2 s) *)
+Example C02_ex_gc_delete_while_recording :
+  let evs := firstn 8 orphan_evs in
+  wf np_cfg /\ phased np_cfg 0 evs /\
+  let s := run np_cfg (init 0) evs in
+  stk s (Req 1) = [FSet 0 1010000000] /\ stk s (Gc 0) = [GDel 0 1] /\ now s = 2000000000 /\
+  In (FSet 0 1010000000) (stk s (Req 1)) /\ In (GDel 0 1) (stk s (Gc 0)) /\ (1010000000 <=? now s) = true.
+Proof.
+  cbn zeta. split; [exact C02_np_wf|]. split; [apply C02_phasedb_spec; vm_compute; reflexivity|].
+  vm_compute. repeat split; try reflexivity; left; reflexivity.
+Qed.
 
 
 (* ====================================================================== *)
@@ -1026,6 +1051,18 @@ Proof.
 Qed.
 Print Assumptions C02_suite_eng2_states_reachable.
 
+(* so the bound holds in every state the engine-level suite goes through (the
+   analogue of C02_bound_suite_res for the function evaluated today; suite
+   "eng" = run_eng3h steps with eevs2_state, C02_suite_eng3_is_eng2) *)
+Theorem C02_bound_suite_eng2 : forall rows es q,
+  Z.of_nat (length (members (base (eevs2_state head (mkcfg rows) (kinit 0) es)) q))
+    <= Z.max 0 (cmax (mkcfg rows) q).
+Proof.
+  intros rows es q. destruct (C02_suite_eng2_states_reachable rows es) as [s2 [[_ [M _]] R]].
+  rewrite M. apply (C02_bound _ _ _ R).
+Qed.
+Print Assumptions C02_bound_suite_eng2.
+
 (* ====================================================================== *)
 (* (H) the ends of a transaction the engine itself produces                *)
 
@@ -1038,9 +1075,14 @@ Print Assumptions C02_suite_eng2_states_reachable.
    (the QuotaProcessorDec of every quota in [qs], in any order, each GetQuota +
    Dec) and finishes.  Run by an idle transaction from ANY state — whatever it
    holds, whichever quota it met first: it ends idle and without a status in
-   every quota of [qs]; no other transaction's status changes.  (No member
-   without status exists in a phased schedule: C02_release_once.)  Quota ids
-   are bounded by 48 only because the suites' fuel is 200. *)
+   every quota of [qs]; no other transaction's status changes.  The conclusion
+   of the two "_frees_every_slot" statements is about STATUSES only: from an
+   arbitrary state a member without status can exist and stays (Dec looks the
+   member up through the status).  In a state reached by a phased schedule no
+   such member exists (C02_release_once), and the composed statement — the
+   transaction is no MEMBER of any quota of [qs] afterwards — is
+   C02_end_frees_every_member below.  Quota ids are bounded by 48 only because
+   the suites' fuel is 200. *)
 Definition end_early (qs : list Z) : list pev2 := POld PGen :: decs qs ++ [POld PFinish].
 Definition end_response (qs : list Z) : list pev2 := decs qs ++ [POld PFinish].
 
@@ -1090,6 +1132,37 @@ Proof.
 Qed.
 Print Assumptions C02_response_frees_every_slot.
 
+(* The two statements above composed with C02_release_once (audit 2): in a
+   state reached by a PHASED schedule (acyclic configuration) an idle
+   transaction that ends — response processed, or answered early — is
+   afterwards no member of any quota whose Dec processor the walk ran: the slot
+   itself is free, not only the status. *)
+Theorem C02_end_frees_every_member : forall c t0 evs, wf c -> phased c t0 evs ->
+  let s := run c (init t0) evs in
+  forall r qs, stk s (Req r) = [] ->
+    (forall q, In q qs -> q <= 48) -> (forall q1, firstq s r = Some q1 -> q1 <= 48) ->
+    forall tr, tr = end_response qs \/ tr = end_early qs ->
+    let s' := fst (run_ops c s r (ops_of_trace head false tr)) in
+    forall q e, In q qs -> ~ In (e, r) (members s' q).
+Proof.
+  intros c t0 evs WF P s r qs E Q F tr Htr. cbn zeta.
+  assert (X : exists pre, ops_of_trace head false tr =
+                pre ++ flat_map (fun q => [OGetQ q; ODec q]) qs ++ [OFinish] /\ (pre = [] \/ pre = [ODrop])).
+  { destruct Htr as [->| ->]; [exists []|exists [ODrop]]; (split; [|auto]).
+    - unfold end_response. rewrite ops_of_decs_head. reflexivity.
+    - unfold end_early. cbn [ops_of_trace]. rewrite ops_of_decs_head. reflexivity. }
+  destruct X as [pre [-> Hpre]]. intros q e Hq.
+  apply (release_ops_members c t0 evs WF P _ r E).
+  - destruct Hpre as [->| ->]; cbn [app forallb rel_op andb]; apply rel_flat; reflexivity.
+  - intros o H. destruct Hpre as [->| ->]; cbn [app] in H.
+    + apply (quota_flat qs [OFinish] o Q); [|exact H]. intros o' [<-|[]]. cbn. lia.
+    + destruct H as [<-|H]; [cbn; lia|]. apply (quota_flat qs [OFinish] o Q); [|exact H].
+      intros o' [<-|[]]. cbn. lia.
+  - exact F.
+  - apply in_or_app. right. apply dec_in_flat. exact Hq.
+Qed.
+Print Assumptions C02_end_frees_every_member.
+
 (* seeded C02-8: the QuotaProcessorDec does nothing in the walk that follows an
    early answer.  Rate limiter (quota id 1, outside the rows) first, then the
    concurrency limiter on quota 0; transaction 1 is admitted and answered
@@ -1127,6 +1200,23 @@ Example C02_ex_early_answer_after_rate_limiter :
   run_eevs2 head ea_rows ea_cfg (kinit 0) ea_script = [([1], [0]); ([1], [1])] /\
   run_eevs2 seeded8 ea_rows ea_cfg (kinit 0) ea_script = [([1], [1]); ([0], [1])].
 Proof. vm_compute. repeat split; reflexivity. Qed.
+
+(* C02_end_frees_every_member is not vacuous: the state of the example above as
+   a run of events (phased), transaction 1 idle and a member of quota 0; after
+   the early-answer walk the set of quota 0 is empty *)
+Definition ea_evs : list event :=
+  flat_map (fun o => ECall (Req 1) o :: repeat (EStep (Req 1)) 8) [OGetQ 1; OGetQ 0; OInc 0; OAllowed 0].
+
+Example C02_ex_end_frees_member :
+  phased ea_cfg 0 ea_evs /\
+  let s := run ea_cfg (init 0) ea_evs in
+  stk s (Req 1) = [] /\ firstq s 1 = Some 1 /\ members s 0 = [(2010000000, 1)] /\
+  members (fst (run_ops ea_cfg s 1 (ops_of_trace head false (end_early [0])))) 0 = [] /\
+  members (fst (run_ops ea_cfg s 1 (ops_of_trace head false (end_response [0])))) 0 = [].
+Proof.
+  split; [apply C02_phasedb_spec; vm_compute; reflexivity|].
+  vm_compute. repeat split; reflexivity.
+Qed.
 
 (* a retried call through the engine: transaction 1 carries the sequence id of
    transaction 0 while that one is still in flight (max 1), then both fail *)
